@@ -1,20 +1,15 @@
 #!/usr/bin/env python3
-"""Generates MANIFEST.json from the table below (kept in one place so that the manifest stays valid)."""
-import json, os
+"""Generates MANIFEST.json from the rule packs registered in the checker (vcheck -list) so that it stays in sync."""
+import json, subprocess
 BASE = json.load(open('/root/.vp/BASELINE.json'))
-# property -> (technique, level text, level note, design ref)
-CLAIMED = {
- "C18": ("SSA path queries (guard by edge deletion), value provenance, lock-set dataflow over services/cache/standard",
-         "Decides, for every path of the real code, structural necessary conditions of the property: success returns carry a slot from a found cache entry or from the header fetched in the same call; the stored and returned values agree; fetch failure is an error; handlers store (Block, Slot) of one event; deletes are guarded by slot < minSlot with a guarded epoch subtraction; the map is accessed under its mutex and locks are paired. It does not decide the behaviour for all histories (beacon-node honesty, retention size, interleavings).",
-         "Trusted: go/packages+go/types+go/ssa (x/tools v0.29.0) model of the code; the library decoder contract that a nil error implies non-nil Data.Header.Message. Level 'other': necessary structural clauses, not the behavioural statement.",
-         "DESIGN.md §4 C18"),
-}
+packs = {p["id"]: p for p in json.loads(subprocess.check_output(["bin/vcheck", "-list"]))}
+NA = {}  # property -> reason, for properties that are deliberately not claimed
 PENDING_REASON = "check not built yet in this round (design in DESIGN.md §4); not claimed until its rule pack exists"
 props = [json.loads(l)["id"] for l in open("properties.jsonl")]
 checks, na = [], []
 for p in props:
-    if p in CLAIMED:
-        tech, text, note, ref = CLAIMED[p]
+    if p in packs and p not in NA:
+        pk = packs[p]
         checks.append({
             "property_id": p,
             "quick_cmd": "./run.sh %s quick" % p,
@@ -22,18 +17,20 @@ for p in props:
             "evidence_file": "/verif/evidence/%s.json" % p,
             "replay_cmd_template": "./run.sh --replay {path}",
             "engine": "vcheck",
-            "level_claimed": {"category": "other", "text": text, "design_ref": ref},
-            "level_note": note,
-            "technique": "static analysis: " + tech,
+            "level_claimed": {"category": "other",
+                              "text": "Static decision, over every path of the current source, of structural necessary conditions of the property (not of the behavioural statement itself). " + pk["explanation"],
+                              "design_ref": "DESIGN.md §4 " + p},
+            "level_note": "Trusted base: go/packages + go/types + go/ssa (x/tools v0.29.0) as the model of the code; the checker's rule tables (printed in evidence); " + " ".join(pk.get("assumptions") or []) + " A pass means the listed clauses hold on all paths; the clauses listed as NOT decided are outside this family.",
+            "technique": "static analysis: " + pk["technique"],
         })
     else:
-        na.append({"property_id": p, "reason": NA.get(p, PENDING_REASON) if 'NA' in globals() else PENDING_REASON})
+        na.append({"property_id": p, "reason": NA.get(p, PENDING_REASON)})
 m = {
  "version": 1,
  "setup_cmd": "cd checker && GOFLAGS=-mod=mod GOPROXY=off GOSUMDB=off GOTOOLCHAIN=local GOWORK=off go build -o ../bin/vcheck ./cmd/vcheck",
  "hooks": {"guard": "verif", "enable": "none needed: static analysis reads /repo's working tree as it is; no instrumentation is compiled in",
            "baseline_off_cmd": BASE["cmd"], "source_commits": [], "add_only": True},
- "engines": [{"name": "vcheck", "path": "checker", "serves_properties": sorted(CLAIMED), 
+ "engines": [{"name": "vcheck", "path": "checker", "serves_properties": sorted(c["property_id"] for c in checks),
               "kind_free_text": "repository-specific static analyser (go/packages + go/ssa + call graph): path queries by edge deletion, lock sets, value provenance, table/template conformance; mutant self-test through packages.Overlay"}],
  "checks": checks,
  "not_applicable": na,
